@@ -28,8 +28,8 @@ Definition allow_list : list allow := [
     "eval.c: table of core-form names, read when a context's environment is built";
   mk_allow core "sexp_initial_features" false Immutable 0 [] []
     "eval.c: feature names, copied into each context's feature list";
-  mk_allow core "sexp_char_names" false Immutable 0 [] ["sexp_load_image"; "sexp_read_raw"]
-    "sexp.c: character names (relro); the two address takers index it read-only";
+  mk_allow core "sexp_char_names" false Immutable 0 [] ["sexp_load_image"; "sexp_read_raw"; "sexp_read_raw_depth"]
+    "sexp.c: character names (relro); the address takers index it read-only (sexp_read_raw_depth = the reader body since the depth-limit fix 0302f3f; reviewed: sexp.c #\\name lookup loop, reads only)";
   mk_allow core "all_paths" false Immutable 16 [] []
     "gc_heap.c:604: two constant path strings (relro)";
   mk_allow core "_huff_tab" true Immutable 32 [] ["sexp_write_one"]
